@@ -145,6 +145,13 @@ struct Li : public Callback::Listener
 {
   void t0(); void t1(int); void t2(int, int);
 };
+struct Pad { int pad; };
+struct Li2 : public Pad, public Li {};      // the slot's class is a non-first base of the object handed to connect/disconnect
+inline void callbacks2(Em& e, Li2& l)
+{
+  Callback::connect(&e, &Em::s0, &l, &Li::t0); Callback::connect(&e, &Em::s1, &l, &Li::t1);
+  Callback::disconnect(&e, &Em::s0, &l, &Li::t0); Callback::disconnect(&e, &Em::s1, &l, &Li::t1);
+}
 inline void callbacks(Em& e, Li& l)
 {
   Callback::connect(&e, &Em::s0, &l, &Li::t0); Callback::connect(&e, &Em::s1, &l, &Li::t1); Callback::connect(&e, &Em::s2, &l, &Li::t2);
